@@ -51,6 +51,13 @@ var workloads = []workload{
 	{"c16", 400, 20000},
 }
 
+func outDir() string {
+	if d := os.Getenv("VERIF_OUT_DIR"); d != "" {
+		return d
+	}
+	return verifDir()
+}
+
 func verifDir() string {
 	if d := os.Getenv("VERIF_DIR"); d != "" {
 		return d
@@ -206,8 +213,8 @@ func seed() uint64 {
 func check(tier string) int {
 	t0 := time.Now()
 	fmt.Printf("[C14] tier=%s seed=%d\n", tier, seed())
-	os.MkdirAll(filepath.Join(verifDir(), "evidence"), 0o755)
-	os.MkdirAll(filepath.Join(verifDir(), "replays"), 0o755)
+	os.MkdirAll(filepath.Join(outDir(), "evidence"), 0o755)
+	os.MkdirAll(filepath.Join(outDir(), "replays"), 0o755)
 	kn := loadKnown()
 	knownKeys := map[string]known{}
 	for _, k := range kn {
@@ -360,7 +367,7 @@ func check(tier string) int {
 			continue
 		}
 		rf := replayFile{"C14", d.w, tier, seed(), d.id, "default", d.c, k, la, lb, plan}
-		path := filepath.Join(verifDir(), "replays", fmt.Sprintf("C14-%d-%s-%d-%s.json", seed(), d.w, d.id, d.c))
+		path := filepath.Join(outDir(), "replays", fmt.Sprintf("C14-%d-%s-%d-%s.json", seed(), d.w, d.id, d.c))
 		b, _ := json.MarshalIndent(rf, "", " ")
 		os.WriteFile(path, b, 0o644)
 		fmt.Printf("[C14] %s — workload %s run %d: first differing event\n   default: %s\n   %s: %s\n", k, d.w, d.id, trunc(la, 300), d.c, trunc(lb, 300))
@@ -393,7 +400,7 @@ func check(tier string) int {
 		"assumptions": []string{"GODEBUG=cpu.X=off is honoured by golang.org/x/sys/cpu for AVX2, BMI2 and ADX on this machine (all three present)", "each configuration is deterministic with itself (checked on every reported difference)"},
 		"wall_s":      wall, "violations": newViol}
 	eb, _ := json.MarshalIndent(ev, "", " ")
-	if err := os.WriteFile(filepath.Join(verifDir(), "evidence", "C14.json"), eb, 0o644); err != nil {
+	if err := os.WriteFile(filepath.Join(outDir(), "evidence", "C14.json"), eb, 0o644); err != nil {
 		return 2
 	}
 	fmt.Printf("[C14] plans compared=%d executions=%d differences=%d wall=%.1fs exit=%d\n", compared, executions, len(diffs), wall, exit)
